@@ -42,7 +42,8 @@ func (o c13op) String() string {
 }
 
 type c13live struct {
-	fresh     []*jsonschema.Schema // shared trees that nothing has resolved yet: Resolve ops race on their FIRST resolution
+	ropts     []*jsonschema.ResolveOptions // per schema: options value shared by every Resolve of that schema (nil where each call needs a private simulated Loader)
+	fresh     []*jsonschema.Schema         // shared trees that nothing has resolved yet: Resolve ops race on their FIRST resolution
 	schemas   []*jsonschema.Schema
 	resolveds []*jsonschema.Resolved
 	opts      *jsonschema.ForOptions
@@ -98,6 +99,12 @@ func (w *c13world) build() (*c13live, string) {
 			return nil, fmt.Sprintf("schema %d: %v", i, rf)
 		}
 		l.fresh = append(l.fresh, &fresh)
+		var ro *jsonschema.ResolveOptions
+		if w.loaderFor(s) == nil {
+			// the caller's options value, shared by all goroutines that resolve this schema; nothing has used it yet
+			ro = &jsonschema.ResolveOptions{BaseURI: s.Base, ValidateDefaults: false}
+		}
+		l.ropts = append(l.ropts, ro)
 	}
 	l.opts = &jsonschema.ForOptions{IgnoreInvalidTypes: w.ignore}
 	if len(w.tsSpec) > 0 {
@@ -164,7 +171,11 @@ func (w *c13world) exec(l *c13live, op c13op) string {
 		if op.I%2 == 0 {
 			tree = l.fresh[op.S]
 		}
-		res, err := tree.Resolve(&jsonschema.ResolveOptions{BaseURI: s.Base, Loader: w.loaderFor(s)})
+		ro := l.ropts[op.S]
+		if ro == nil || op.J%3 == 0 {
+			ro = &jsonschema.ResolveOptions{BaseURI: s.Base, Loader: w.loaderFor(s)}
+		}
+		res, err := tree.Resolve(ro)
 		if err != nil {
 			return "err"
 		}
